@@ -37,10 +37,20 @@ Exact == T.kind = "exact"
 \* divergence), once per documented value of the sparse_solver option
 AsmPaths == {"asm:superlu", "asm:umfpack", "asm:pardiso", "asm:cupy"}
 ScalarOps == {"div", "grad", "lap", "neumann"}
+\* MeshOperators with a non-empty set of fixed (terminal) sites: psi pinned there (fix_psi = TRUE, terminal_psi a number)
+\* or not (fix_psi = FALSE, terminal_psi = None); first build and refresh in place
+PinPaths == {"pin:build", "pin:refresh", "nopin:build", "nopin:refresh"}
+CovOps == {"covgrad", "covlap"}
+\* the mesh written with Mesh.to_hdf5 and read back with Mesh.from_hdf5 (what Device.from_hdf5 / Solution.from_hdf5 hand out)
+RestoredPaths == {"restored"}
+VarPaths == AsmPaths \cup PinPaths \cup RestoredPaths
 OpNames == {"div", "grad", "lap", "neumann", "covgrad", "covlap", "covgrad_r", "covlap_r", "covgrad2", "covlap2"}
               \cup {o \o "@" \o p : o \in ScalarOps, p \in AsmPaths}
+              \cup {o \o "@" \o p : o \in CovOps, p \in PinPaths}
+              \cup {o \o "@" \o p : o \in ScalarOps \cup CovOps, p \in RestoredPaths}
 \* where a recorded matrix is kept: built from scratch / refreshed in place / assembled for a solver option
-Slot(op, path) == IF path = "refresh" THEN op \o "_r" ELSE IF path \in AsmPaths THEN op \o "@" \o path ELSE op
+Slot(op, path) == IF path = "refresh" THEN op \o "_r" ELSE IF path \in VarPaths THEN op \o "@" \o path ELSE op
+SeqSet(s) == {s[n] : n \in 1..Len(s)}
 None == <<>>
 
 \* the mesh of the trace: an instance of the FVOps universe, or explicit
@@ -72,8 +82,12 @@ Require(name, ok) == IF Strict THEN ok /\ UNCHANGED bad ELSE bad' = (IF ok THEN 
 TOp == /\ IsEv("op") /\ Exact /\ chi = None
        /\ Ev.op \in {"div", "grad", "lap", "neumann", "covgrad", "covlap"}
        /\ (Ev.path \in AsmPaths => Ev.op \in ScalarOps /\ Ev.src = "code")
-       /\ \A M \in {TM} : Require("CodeMatchesSpec:" \o Ev.op \o (IF Ev.path \in AsmPaths THEN "@" \o Ev.path ELSE ""),
-                                  Ev.m = SpecMat(M, Ev.op, Ev.q))
+       /\ (Ev.path \in RestoredPaths => Ev.src = "code")
+       /\ (Ev.path \in PinPaths => /\ Ev.op \in CovOps /\ Ev.src = "code"
+                                   /\ Len(Ev.fixed) > 0 /\ \A M \in {TM} : SeqSet(Ev.fixed) \subseteq Sites(M))
+       /\ \A M \in {TM} : Require("CodeMatchesSpec:" \o Ev.op \o (IF Ev.path \in VarPaths THEN "@" \o Ev.path ELSE ""),
+                                  Ev.m = (IF Ev.op = "covlap" /\ Ev.path \in {"pin:build", "pin:refresh"}
+                                          THEN CovLapPinned(M, Ev.q, SeqSet(Ev.fixed)) ELSE SpecMat(M, Ev.op, Ev.q)))
        /\ IF Ev.src = "code"
           THEN /\ cm' = [cm EXCEPT ![Slot(Ev.op, Ev.path)] = Storable(Ev.m)]
                /\ IF Ev.op \in {"covgrad", "covlap"} THEN (cq = None \/ cq = Ev.q) /\ cq' = Ev.q ELSE UNCHANGED cq
@@ -117,9 +131,11 @@ ScalarFacts == {"div_code_eq_formula", "grad_code_eq_formula", "lap_code_eq_form
                 "weighted_lap_max_eigenvalue", "lap_annihilates_constants", "grad_exact_on_linear",
                 "assembled_divergence_eq_formula", "assembled_mu_gradient_eq_formula",
                 "assembled_mu_laplacian_eq_formula", "assembled_boundary_eq_formula",
-                "assembled_lap_eq_div_grad", "assembled_weighted_lap_symmetric", "assembled_lap_annihilates_constants"}
+                "assembled_lap_eq_div_grad", "assembled_weighted_lap_symmetric", "assembled_lap_annihilates_constants",
+                "restored_operators_eq_formula", "restored_grad_exact_on_linear", "restored_boundary_flux_integrates"}
 CovFacts == {"covgrad_code_eq_formula", "covlap_code_eq_formula", "covgrad_refresh_eq_formula", "covlap_refresh_eq_formula",
-             "covlap_hermitian", "supercurrent_code_eq_formula"}
+             "covlap_hermitian", "supercurrent_code_eq_formula",
+             "unpinned_covlap_eq_formula", "unpinned_covlap_hermitian", "pinned_covlap_eq_formula", "pinned_paths_covgrad_eq_formula"}
 GaugeFacts == {"covgrad_covariant", "covlap_covariant", "supercurrent_invariant", "modulus_invariant"}
 Needed(group) == CASE group = "scalar" -> ScalarFacts [] group = "cov" -> CovFacts [] group = "gauge" -> GaugeFacts
 
@@ -127,6 +143,7 @@ TFacts == /\ IsEv("facts") /\ ~Exact /\ Ev.group \in {"scalar", "cov", "gauge"}
           /\ Needed(Ev.group) \subseteq DOMAIN Ev.facts
           /\ \A k \in DOMAIN Ev.facts : Ev.facts[k] \in Nat
           /\ (Ev.group = "scalar" => T.comps >= 1)
+          /\ (Ev.group = "cov" => Ev.nfixed > 0)          \* the pinned / unpinned operators had sites to pin
           /\ Require(IF \A k \in DOMAIN Ev.facts : Ev.facts[k] <= FloatTol THEN "KernelIsConstants" ELSE "FloatFactsWithinTolerance",
                      /\ \A k \in DOMAIN Ev.facts : Ev.facts[k] <= FloatTol
                      /\ (Ev.group = "scalar" => Ev.kdim = T.comps))
@@ -147,6 +164,8 @@ RequiredExact == {<<"div", "code", "build">>, <<"grad", "code", "build">>, <<"la
                   <<"js", "code", "-">>, <<"js", "ref", "-">>, <<"gauge", "-", "-">>,
                   <<"gop", "covgrad", "refresh">>, <<"gop", "covlap", "refresh">>, <<"gjs", "-", "-">>}
                     \cup {<<o, "code", p>> : o \in ScalarOps, p \in AsmPaths}
+                    \cup {<<o, "code", p>> : o \in CovOps, p \in PinPaths}
+                    \cup {<<o, "code", p>> : o \in ScalarOps \cup CovOps, p \in RestoredPaths}
 RequiredFloat == {<<"facts", "scalar", "-">>, <<"facts", "cov", "-">>, <<"facts", "gauge", "-">>}
 Complete == IF Exact THEN RequiredExact \subseteq seen /\ (T.geo => <<"geom", "-", "-">> \in seen)
             ELSE RequiredFloat \subseteq seen
@@ -171,14 +190,15 @@ TrKernelIsConstants == (AtEnd /\ Exact /\ Have({"lap"})) =>
                                           /\ ((T.heavy /\ M.n <= 6) => KernelIsConstantsByMinorsOn(M, cm["lap"]))
 \* what build_operators() assembled, for every sparse_solver option, obeys the identities as well
 TrAssembledObeyIdentities ==
-  (AtEnd /\ Exact) => \A M \in {TM} : \A p \in AsmPaths :
+  (AtEnd /\ Exact) => \A M \in {TM} : \A p \in AsmPaths \cup RestoredPaths :
      /\ Have({"lap@" \o p, "div@" \o p, "grad@" \o p}) => LapIsDivGradOn(M, cm["lap@" \o p], cm["div@" \o p], cm["grad@" \o p])
      /\ Have({"lap@" \o p}) => /\ WeightedSymmetricOn(M, cm["lap@" \o p]) /\ AnnihilatesConstantsOn(M, cm["lap@" \o p])
      /\ Have({"div@" \o p}) => WeightedDivSumsToZeroOn(M, cm["div@" \o p])
      /\ Have({"neumann@" \o p}) => BoundaryFluxIntegratesOn(M, cm["neumann@" \o p])
      /\ Have({"grad@" \o p}) => GradExactOnLinearOn(M, cm["grad@" \o p])
 TrGradExactOnLinear == (AtEnd /\ Exact /\ Have({"grad"})) => \A M \in {TM} : GradExactOnLinearOn(M, cm["grad"])
-TrCovLapHermitian == (AtEnd /\ Exact) => \A M \in {TM} : \A o \in {"covlap", "covlap_r", "covlap2"} :
+TrCovLapHermitian == (AtEnd /\ Exact) => \A M \in {TM} : \A o \in {"covlap", "covlap_r", "covlap2", "covlap@restored",
+                                                                        "covlap@nopin:build", "covlap@nopin:refresh"} :
                                                 cm[o] # None => WeightedHermitianOn(M, cm[o])
 TrGaugeCovariant == (AtEnd /\ Exact /\ chi # None /\ Have({"covgrad_r", "covlap_r", "covgrad2", "covlap2"})) =>
                        \A M \in {TM} : /\ GradCovariantOn(M, cm["covgrad_r"], cm["covgrad2"], chi)
